@@ -368,6 +368,7 @@ func TestVerifWireCorr(t *testing.T) {
 	opts.MemQueueSize = 100000
 	_, httpAddr, nsqd := mustStartNSQD(opts)
 	defer nsqd.Exit()
+	defer vfE1PanicGuard("a codec call", out)()
 	e := &vfE1WireEnv{t: t, nsqd: nsqd, httpAddr: httpAddr, topic: nsqd.GetTopic("vf_wire"), hist: map[string]int{}}
 	run := func(line string) {
 		op, impl := e.exec(line)
